@@ -454,14 +454,12 @@ func parseStops(csv *csv.File, inheritWheelchairBoarding bool) []Stop {
 
 	var stops []Stop
 	stopIdToIndex := map[string]int{}
-	stopIdToParent := map[string]string{}
+	// The parent_station value of each stop in stops, in the same order.
+	var parentStopIds []string
 	for csv.NextRow() {
 		stopID := idColumn.Read()
-		hasParentStop := false
-		if parentStopId := parentStationColumn.Read(); parentStopId != "" {
-			stopIdToParent[stopID] = parentStopId
-			hasParentStop = true
-		}
+		parentStopId := parentStationColumn.Read()
+		hasParentStop := parentStopId != ""
 		stop := Stop{
 			Id:                 stopID,
 			Code:               codeColumn.Read(),
@@ -482,13 +480,14 @@ func parseStops(csv *csv.File, inheritWheelchairBoarding bool) []Stop {
 		}
 		stopIdToIndex[stop.Id] = len(stops)
 		stops = append(stops, stop)
+		parentStopIds = append(parentStopIds, parentStopId)
 	}
-	for stopId, parentStopId := range stopIdToParent {
+	for i, parentStopId := range parentStopIds {
 		parentStopIndex, ok := stopIdToIndex[parentStopId]
-		if !ok {
+		if parentStopId == "" || !ok {
 			continue
 		}
-		stops[stopIdToIndex[stopId]].Parent = &stops[parentStopIndex]
+		stops[i].Parent = &stops[parentStopIndex]
 	}
 
 	// Inherit wheelchair boarding from parent stops if specified.
